@@ -4,6 +4,7 @@ import (
 	"fmt"
 	"go/token"
 	"go/types"
+	"os"
 	"reflect"
 	"regexp"
 	"sort"
@@ -13,7 +14,7 @@ import (
 )
 
 func init() {
-	props["C18"] = &propDef{run: runC18, explanation: "Partial. Decided statically: (O1) every comparator handed to sort.Slice/SliceStable in the metadata package is, on all weak orderings of (time_i, time_j, number_i, number_j), exactly time_i < time_j ∨ (time_i = time_j ∧ number_i < number_j) — the lexicographic anchoring order (finite, exhaustive); the version provider's comparator is a strict order on its single key; (T1) the transformer's purpose switch maps each of the five purposes to its own relationship and covers every purpose the patch validator admits; the key-context table covers every key type the validator admits; (P1) the verification-method literal (id = getObjectID(did, key id), type, controller = did), getObjectID (relative '#id' under @base, did+'#id' otherwise), exactly one append of the method per key and of each reference per purpose, the key-material table per key type, service id/type/endpoint plus copy of every other member; (P2) the metadata field mapping (method metadata, document metadata, published/unpublished operation literals field by field, de-duplication by canonical reference, both lists sorted before use). Not decided: counting statements over arbitrary documents beyond the one-append-per-iteration shape. The context of the key's type is looked up for every key (for-all loop form); each metadata member is stored under conditions on its own source only. The comparator of a sortedness test is held to the same order; the @base context entry is added under exactly the includeBase flag. No equivalent id reported for an unpublished document carries the initial state. canonicalId / equivalentId of a published document are unconditional and the canonical id is always an equivalent id; object ids are decided in concatenation form under both values of the @base flag; the key-material table is evaluated on all assignments of its atoms. Both transformer steps precede every accepting exit; key-type contexts are de-duplicated by equality; the generic transformer stores nothing over the id. Relationship lists start from slices of their own; optional metadata members are stored under a presence test of the whole value; every unpublished operation is listed. An empty key context leads to the defaults after the options. Service members are copied whatever their values. Equivalent ids of an unpublished document carry the label."}
+	props["C18"] = &propDef{run: runC18, explanation: "Partial. Decided statically: (O1) every comparator handed to sort.Slice/SliceStable in the metadata package is, on all weak orderings of (time_i, time_j, number_i, number_j), exactly time_i < time_j ∨ (time_i = time_j ∧ number_i < number_j) — the lexicographic anchoring order (finite, exhaustive); the version provider's comparator is a strict order on its single key; (T1) the transformer's purpose switch maps each of the five purposes to its own relationship and covers every purpose the patch validator admits; the key-context table covers every key type the validator admits; (P1) the verification-method literal (id = getObjectID(did, key id), type, controller = did), getObjectID (relative '#id' under @base, did+'#id' otherwise), exactly one append of the method per key and of each reference per purpose, the key-material table per key type, service id/type/endpoint plus copy of every other member; (P2) the metadata field mapping (method metadata, document metadata, published/unpublished operation literals field by field, de-duplication by canonical reference, both lists sorted before use). Not decided: counting statements over arbitrary documents beyond the one-append-per-iteration shape. The context of the key's type is looked up for every key (for-all loop form); each metadata member is stored under conditions on its own source only. The comparator of a sortedness test is held to the same order; the @base context entry is added under exactly the includeBase flag. No equivalent id reported for an unpublished document carries the initial state. canonicalId / equivalentId of a published document are unconditional and the canonical id is always an equivalent id; object ids are decided in concatenation form under both values of the @base flag; the key-material table is evaluated on all assignments of its atoms. Both transformer steps precede every accepting exit; key-type contexts are de-duplicated by equality; the generic transformer stores nothing over the id. Relationship lists start from slices of their own; optional metadata members are stored under a presence test of the whole value; every unpublished operation is listed. An empty key context leads to the defaults after the options. Service members are copied whatever their values. Equivalent ids of an unpublished document carry the label. created / updated are the RFC 3339 text of the UTC form of the anchoring time; relationship lists stored in a loop start from slices made for them."}
 }
 
 func (c *Ctx) sortComparators(pkgRel string) []*ssa.Function {
@@ -1292,7 +1293,7 @@ func (c *Ctx) metadataMapping(pMeta string) {
 	}
 	c.condEnv = henv
 	defer func() { c.condEnv = nil }()
-	type upd struct{ key, val string }
+	type upd struct{ key, val, inl string }
 	var ups []upd
 	tenvs := c.tableLoopEnvs(host, henv)
 	// stores made by an unexported helper that is handed the map being filled and the member's name: the helper's store,
@@ -1386,17 +1387,32 @@ func (c *Ctx) metadataMapping(pMeta string) {
 	forEachInstr(host, func(in ssa.Instruction) {
 		if mu, ok := in.(*ssa.MapUpdate); ok {
 			if _, isK := mu.Key.(*ssa.Const); isK {
-				ups = append(ups, upd{unquote(c.Path(mu.Key, nil)), c.Path(mu.Value, henv)})
+				ups = append(ups, upd{unquote(c.Path(mu.Key, nil)), c.Path(mu.Value, henv), c.InlPath(mu.Value, henv)})
 				return
 			}
 			// members stored by a loop over a literal list of names: one store per name
 			for _, te := range tenvs {
 				if k := c.Path(mu.Key, te); strings.HasPrefix(k, `"`) {
-					ups = append(ups, upd{unquote(k), c.Path(mu.Value, te)})
+					ups = append(ups, upd{unquote(k), c.Path(mu.Value, te), c.InlPath(mu.Value, te)})
 				}
 			}
 		}
 	})
+	// (a time is reported as the RFC 3339 text of the anchoring time in UTC, whatever zone the process runs in: the
+	// seconds made a time.Time, moved to UTC, formatted — Format alone renders in the local zone)
+	utcText := func(src string) func(string) bool {
+		return func(s string) bool {
+			if os.Getenv("STCHECK_OBLS") != "" {
+				fmt.Fprintln(os.Stderr, "TIME", s)
+			}
+			i := strings.Index(s, "(time.Time).Format(")
+			j := strings.Index(s, "(time.Time).UTC(")
+			if j < 0 && strings.Contains(s, "time.UTC") {
+				j = strings.Index(s, "(time.Time).In(")
+			}
+			return strings.Contains(s, src) && i >= 0 && j > i && !strings.Contains(s, ".Local(")
+		}
+	}
 	want := map[string]func(string) bool{
 		"published":             func(s string) bool { return s == `$2["published"]#0` },
 		"recoveryCommitment":    pathIs("$1.RecoveryCommitment"),
@@ -1410,9 +1426,9 @@ func (c *Ctx) metadataMapping(pMeta string) {
 		"deactivated":  pathIs("$1.Deactivated"),
 		"canonicalId":  func(s string) bool { return s == `$2["canonicalId"]#0` },
 		"equivalentId": func(s string) bool { return s == `$2["equivalentId"]#0` },
-		"created":      func(s string) bool { return strings.Contains(s, "$1.CreatedTime") },
+		"created":      utcText("$1.CreatedTime"),
 		"versionId":    pathIs("$1.VersionID"),
-		"updated":      func(s string) bool { return strings.Contains(s, "$1.UpdatedTime") },
+		"updated":      utcText("$1.UpdatedTime"),
 	}
 	for _, hs := range hstores {
 		k, v := unquote(c.Path(hs.mu.Key, hs.env)), c.Path(hs.mu.Value, hs.env)
@@ -1422,12 +1438,16 @@ func (c *Ctx) metadataMapping(pMeta string) {
 				v = v2
 			}
 		}
-		ups = append(ups, upd{k, v})
+		ups = append(ups, upd{k, v, ""})
 	}
 	seen := map[string]bool{}
 	for _, u := range ups {
 		p, ok := want[u.key]
 		seen[u.key] = true
+		// (a value made by a one-exit helper reads as what the helper returns)
+		if ok && !p(u.val) && u.inl != "" && p(u.inl) {
+			u.val = u.inl
+		}
 		c.Check("C18.P2", "metadata:"+u.key, ok && p(u.val), cdm.Pos(), fmt.Sprintf("metadata member %q = %s", u.key, u.val))
 	}
 	var missing []string
@@ -1793,9 +1813,7 @@ func (c *Ctx) relationshipListsSeparateRule(rule string) {
 			if !isMM || types.TypeString(mm.Type().Underlying(), nil) != "map[string][]interface{}" {
 				return
 			}
-			if _, isK := mu.Key.(*ssa.Const); !isK {
-				return
-			}
+			_, constKey := mu.Key.(*ssa.Const)
 			// the appends of the loop store append(m[k], …) back: those are not the literal's entries
 			if cl, isC := mu.Value.(*ssa.Call); isC {
 				if b, isB := cl.Call.Value.(*ssa.Builtin); isB && b.Name() == "append" {
@@ -1809,11 +1827,20 @@ func (c *Ctx) relationshipListsSeparateRule(rule string) {
 			case *ssa.MakeSlice:
 				fresh = true
 			case *ssa.Slice:
+				// (a window of a shared block whose capacity is cut to the window cannot grow into its neighbour)
 				_, fresh = x.X.(*ssa.Alloc)
+				fresh = fresh || x.Max != nil
 			case *ssa.Const:
 				fresh = x.IsNil()
 			}
 			if k, isK := v.(*ssa.Const); isK && k.IsNil() {
+				return
+			}
+			if !constKey {
+				// entries stored in a loop over the relationship names: each from a slice made in that iteration
+				if !fresh {
+					bad = append(bad, fmt.Sprintf("%s: the list under %s starts from %s, which is not a slice made for it", c.pos(mu.Pos()), c.Path(mu.Key, nil), c.Path(v, nil)))
+				}
 				return
 			}
 			if prev, dup := used[v]; dup {
